@@ -19,7 +19,7 @@ type rawPart struct {
 	Bin   bool // literal8 ("~{n}")
 	// Announce overrides the announced size (default len(Lit)); used for huge literals whose
 	// payload is never sent because the server must refuse them first.
-	Announce int64
+	Announce uint64
 }
 
 // rawCmd is one command sent by the scripted raw peer.
@@ -63,6 +63,28 @@ type cmdOutcome struct {
 	SentAtStep int
 	FromIdx    int           // number of responses parsed when the command started to be sent
 	LitWait    time.Duration // simulated time spent waiting for the answer to a synchronising literal announcement
+	Invited    []litInvite   // synchronising literals the server answered with a continuation request
+}
+
+type litInvite struct {
+	Size uint64 // announced size
+	Last bool   // the literal is the command's last literal (the message of an APPEND)
+}
+
+// judgeInvites: the server invites ("+") a synchronising literal only if it is willing to take it: at most 4096 bytes
+// for a buffered string argument, at most the 100 MiB limit for the message of an APPEND.
+func judgeInvites(r *R, outcomes []*cmdOutcome, phase string) {
+	for _, o := range outcomes {
+		for _, iv := range o.Invited {
+			limit := uint64(4096)
+			if o.Cmd.Name == "APPEND" && iv.Last {
+				limit = 100 * 1024 * 1024
+			}
+			if iv.Size > limit {
+				r.Violate("oversized-literal-invited", o.Cmd.Name, "%s: command %s: the server answered the announcement of a %d-byte synchronising literal with a continuation request (limit %d)", phase, describeCmd(o.Cmd), iv.Size, limit)
+			}
+		}
+	}
 }
 
 // rawPeer is a scripted client that speaks raw bytes and behaves like a correct client where the
@@ -194,12 +216,18 @@ func (p *rawPeer) send(c *rawCmd, o *cmdOutcome) bool {
 	var pending []byte
 	pending = append(pending, c.Tag...)
 	pending = append(pending, ' ')
-	for _, part := range c.Parts {
+	lastLit := -1
+	for pi, part := range c.Parts {
+		if part.IsLit {
+			lastLit = pi
+		}
+	}
+	for pi, part := range c.Parts {
 		if !part.IsLit {
 			pending = append(pending, part.Text...)
 			continue
 		}
-		n := int64(len(part.Lit))
+		n := uint64(len(part.Lit))
 		if part.Announce > 0 {
 			n = part.Announce
 		}
@@ -229,6 +257,7 @@ func (p *rawPeer) send(c *rawCmd, o *cmdOutcome) bool {
 				return false
 			}
 			o.Conts++
+			o.Invited = append(o.Invited, litInvite{Size: n, Last: pi == lastLit})
 		}
 		pending = append(pending, part.Lit...)
 	}
@@ -395,7 +424,7 @@ func describeCmd(c *rawCmd) string {
 	sb.WriteString(c.Tag + " ")
 	for _, part := range c.Parts {
 		if part.IsLit {
-			n := int64(len(part.Lit))
+			n := uint64(len(part.Lit))
 			if part.Announce > 0 {
 				n = part.Announce
 			}
